@@ -1,5 +1,6 @@
 import FrappyProofs.Lemmas.RatLawful
 import FrappyProofs.Lemmas.DatatypesIdem
+import FrappyProofs.Lemmas.DatatypesCall
 /-
 On the exact carrier every grid value `k * scale` (scale ≠ 0) snaps to itself, and a concrete scaled
 type satisfies `GridExactScaled` — the hypothesis of the idempotence theorem is satisfiable.
@@ -48,6 +49,16 @@ theorem rat_onGridNear (s x : Rat) (h : OnGrid s x) : OnGridNear s x := by
       right; left
       rw [hsn]
       simp [IsSome, FloatOps.same]
+
+/-- over the exact carrier every grid value snaps to itself (hypothesis `GridAll` of `call_idem`) -/
+theorem rat_gridAllScaled (s : Rat) (hs : s ≠ 0) : GridAllScaled s := by
+  intro x hon _
+  obtain ⟨k, hk⟩ := hon
+  have hx : x = (k : Rat) * s := by
+    simp only [IsSome, ofGrid, FloatOps.ofInt, FloatOps.mul, FloatOps.same, decide_eq_true_eq] at hk
+    exact hk.symm
+  subst hx
+  exact rat_snap_self s hs k
 
 /-- `ScaledInteger(0.1, 0, 10)` over the exact carrier -/
 theorem rat_gridExact_example : GridExactScaled (1/10 : Rat) 0 10 := by
